@@ -8,13 +8,23 @@ Open Scope Z_scope.
 Lemma valid_all_fields_ok l : (forall i, In i l -> valid i) -> forallb fields_ok l = true.
 Proof. intros Hv. apply forallb_forall. intros i Hi. apply valid_fields_ok. now apply Hv. Qed.
 
+(* MergeExtendedSpatialIds on ANY spelling of IDs that parse (canonical or "+1", "007", "-0"): the printed form of the code-level
+   merge (int64 threshold) of the parsed records, and no error *)
+Theorem merge_ext_api_parsed s l H V : 0 <= H <= 35 -> 0 <= V <= 35 -> parse_all s = Some l ->
+  merge_ext_api s H V = Ok (map print_eid (merge_x64 H V l)).
+Proof.
+  intros HH HV P. unfold merge_ext_api.
+  rewrite (proj2 (check_zoom_spec H) HH), (proj2 (check_zoom_spec V) HV). cbn [andb]. now rewrite P.
+Qed.
+(* as long as the threshold exponent 2*(MH-H) + (MV-V) stays below 63 the code-level merge is the mathematical one *)
+Lemma merge_x64_merge_x H V l : fits64 H V l -> merge_x64 H V l = merge_x H V l.
+Proof. apply merge64_merge. Qed.
 (* MergeExtendedSpatialIds on the printed form of valid IDs returns the printed form of the model's merge, and no error *)
-Theorem merge_ext_api_ok l H V : 0 <= H <= 35 -> 0 <= V <= 35 -> (forall i, In i l -> valid i) ->
+Theorem merge_ext_api_ok l H V : 0 <= H <= 35 -> 0 <= V <= 35 -> (forall i, In i l -> valid i) -> fits64 H V l ->
   merge_ext_api (map print_eid l) H V = Ok (map print_eid (merge_x H V l)).
 Proof.
-  intros HH HV Hv. unfold merge_ext_api.
-  rewrite (proj2 (check_zoom_spec H) HH), (proj2 (check_zoom_spec V) HV). cbn [andb].
-  now rewrite (parse_all_print l (valid_all_fields_ok l Hv)).
+  intros HH HV Hv F. rewrite (merge_ext_api_parsed _ l H V HH HV (parse_all_print l (valid_all_fields_ok l Hv))).
+  now rewrite merge_x64_merge_x.
 Qed.
 (* error paths: a target zoom outside 0..35, or any member that is not five '/'-separated int64 fields *)
 Theorem merge_ext_api_bad_zoom ids H V : ~ (0 <= H <= 35 /\ 0 <= V <= 35) -> merge_ext_api ids H V = Err.
@@ -51,12 +61,12 @@ Proof.
 Qed.
 
 (* MergeSpatialIds on printed valid spatial IDs (h = v) = the merge at target (z, z), printed back in spatial-ID notation *)
-Theorem merge_sid_api_ok l z : 0 <= z <= 35 -> (forall i, In i l -> valid i /\ ev i = eh i) ->
+Theorem merge_sid_api_ok l z : 0 <= z <= 35 -> (forall i, In i l -> valid i /\ ev i = eh i) -> fits64 z z l ->
   merge_sid_api (map print_sid l) z = Ok (map print_sid (merge_x z z l)).
 Proof.
-  intros Hz Hv. unfold merge_sid_api, sids_to_eids.
+  intros Hz Hv F. unfold merge_sid_api, sids_to_eids.
   rewrite (map_opt_map print_sid sid_to_eid_str print_eid l) by (intros a Ha; apply sid_to_eid_print, Hv, Ha).
-  rewrite (merge_ext_api_ok l z z Hz Hz (fun i Hi => proj1 (Hv i Hi))).
+  rewrite (merge_ext_api_ok l z z Hz Hz (fun i Hi => proj1 (Hv i Hi)) F).
   unfold eids_to_sids. rewrite (map_opt_map print_eid eid_to_sid_str print_sid) by (intros; apply eid_to_sid_print). reflexivity.
 Qed.
 (* every ID returned for spatial-ID inputs has equal zooms again, so the spatial-ID notation loses nothing *)
@@ -88,7 +98,10 @@ Definition prop_ext (ids : list string) (H V : Z) (obs : val) : bool :=
         match obs with
         | VE _ => false
         | _ => match as_LS obs with
-               | Some o => match parse_all o with Some oo => check_merge H V l oo | None => false end
+               | Some o => match parse_all o with
+                           | Some oo => list_eqb String.eqb (map print_eid oo) o && check_merge H V l oo   (* printed by ID(): canonical *)
+                           | None => false
+                           end
                | None => false
                end
         end
@@ -116,14 +129,18 @@ Proof. unfold as_LS, of_LS. cbn [as_L]. induction o as [|a r IH]; cbn; [reflexiv
    whose members are the specification set S (filled targets replaced, every other input unchanged) *)
 Theorem prop_ext_correct l H V o : 0 <= H <= 35 -> 0 <= V <= 35 -> (forall i, In i l -> valid i) ->
   (prop_ext (map print_eid l) H V (of_LS o) = true <->
-   exists oo, parse_all o = Some oo /\ NoDup oo /\ forall x, In x oo <-> S H V (fun i => In i l) x).
+   exists oo, parse_all o = Some oo /\ map print_eid oo = o /\ NoDup oo /\ forall x, In x oo <-> S H V (fun i => In i l) x).
 Proof.
   intros HH HV Hv. unfold prop_ext. rewrite (parse_all_print l (valid_all_fields_ok l Hv)).
   rewrite (proj2 (in_domain_spec l H V) (conj HH (conj HV Hv))).
   assert (Hwf : forall i, In i l -> wfz i) by (intros i Hi; apply valid_wfz, Hv, Hi).
   unfold of_LS at 1. rewrite as_LS_of_LS. destruct (parse_all o) as [oo|]; split.
-  - intros C. exists oo. split; [reflexivity|]. apply (check_merge_correct H V ltac:(lia) ltac:(lia) l Hwf oo). exact C.
-  - intros (oo' & [= <-] & R). apply (check_merge_correct H V ltac:(lia) ltac:(lia) l Hwf oo). exact R.
+  - intros C. apply andb_true_iff in C. destruct C as [K C]. exists oo. split; [reflexivity|].
+    split; [now destruct (list_eqb_spec String.eqb String.eqb_spec (map print_eid oo) o)|].
+    apply (check_merge_correct H V ltac:(lia) ltac:(lia) l Hwf oo). exact C.
+  - intros (oo' & [= <-] & K & R). apply andb_true_iff. split.
+    + now destruct (list_eqb_spec String.eqb String.eqb_spec (map print_eid oo) o).
+    + apply (check_merge_correct H V ltac:(lia) ltac:(lia) l Hwf oo). exact R.
   - discriminate.
   - intros (oo' & [=] & _).
 Qed.
@@ -135,12 +152,12 @@ Proof.
   now rewrite (proj2 (in_domain_spec l H V) (conj HH (conj HV Hv))).
 Qed.
 (* the model's own answer is always accepted: no false alarm on an implementation that agrees with the model *)
-Theorem prop_ext_accepts_model l H V : 0 <= H <= 35 -> 0 <= V <= 35 -> (forall i, In i l -> valid i) ->
-  prop_ext (map print_eid l) H V (of_LS (map print_eid (merge_x H V l))) = true.
+Theorem prop_ext_accepts_model l H V : 0 <= H <= 35 -> 0 <= V <= 35 -> (forall i, In i l -> valid i) -> fits64 H V l ->
+  prop_ext (map print_eid l) H V (of_LS (map print_eid (merge_x64 H V l))) = true.
 Proof.
-  intros HH HV Hv. apply (prop_ext_correct l H V _ HH HV Hv).
+  intros HH HV Hv F. rewrite (merge_x64_merge_x H V l F). apply (prop_ext_correct l H V _ HH HV Hv).
   assert (Hwf : forall i, In i l -> wfz i) by (intros i Hi; apply valid_wfz, Hv, Hi).
-  exists (merge_x H V l). split; [|split].
+  exists (merge_x H V l). split; [|split; [reflexivity|split]].
   - apply parse_all_print. apply valid_all_fields_ok. intros o Ho.
     apply (merge_valid _ id_perm H V l ltac:(lia) ltac:(lia) Hv o Ho).
   - apply merge_NoDup, id_perm.
